@@ -823,6 +823,13 @@ def fixed_families(rng):
     F.append(("defaults", rec("D7", [("e", enum("E7", ["A", "B"])), ("e2", "E7", {"default": "B"}), ("f", fixed("F7", 1)), ("f2", "F7", {"default": "x"}),
                                      ("s", rec("S7r", [("q", "int")])), ("s2", "S7r", {"default": {"q": 5}}), ("u", ["E7", "null"], {"default": "A"}),
                                      ("a", arr("E7"), {"default": ["A", "B"]}), ("z", "int")]), None))
+    F.append(("defaults", rec("D8", [("e", enum("E8", ["A", "B", "C"])), ("e2", "E8", {"default": "B"}), ("e3", "E8", {"default": "C"}), ("e4", "E8", {"default": "A"}),
+                                     ("f", fixed("F8", 1)), ("f2", "F8", {"default": "x"}), ("f3", "F8", {"default": "y"}),
+                                     ("s", rec("S8r", [("q", "int"), ("w", "string", {"default": "in"})])), ("s2", "S8r", {"default": {"q": 5}}),
+                                     ("s3", "S8r", {"default": {"q": 6, "w": "six"}}), ("u2", ["E8", "null"], {"default": "C"}), ("u3", ["E8", "null"], {"default": "B"}),
+                                     ("a2", arr("E8"), {"default": ["A"]}), ("a3", arr("E8"), {"default": ["C", "B"]}), ("z", "int")]), None))
+    F.append(("defaults", arr(rec("D9", [("k", enum("ns9.K", ["P", "Q", "R"]), {"default": "P"}), ("k2", "ns9.K", {"default": "Q"}), ("k3", "ns9.K", {"default": "R"}),
+                                         ("m2", mp("ns9.K"), {"default": {"a": "Q"}}), ("m3", mp("ns9.K"), {"default": {"b": "R"}})])), None))
     F.append(("defaults", rec("D5", [("id", "int"), ("grid", arr(arr("int")), {"default": [[1, 2], [3]]}),
                                      ("index", mp(arr("string")), {"default": {"a": ["x", "y"], "b": []}}),
                                      ("alt", [arr(mp("int")), "null"], {"default": [{"k": 1}, {}]}),
@@ -1449,6 +1456,10 @@ def check_defaults(ctx, cases, model_by_case, stats):
                 if not any(tuple(path[:len(p) + 1]) == tuple(p) + (g["name"],) for p, g in done):
                     done.append((path, f))
             jobs.append((c, r, doc, done, m[1]))
+            if c.tag == "defaults":                          # all defaulted keys of the top level object(s) at once
+                top = [d for d in dels if len(d[0]) == min(len(x[0]) for x in dels)]
+                if len(top) > 1 and top != done:
+                    jobs.append((c, r, doc, top, m[1]))
             if c.tag == "defaults" or not ctx.quick():       # every defaulted key on its own
                 jobs += [(c, r, doc, [d], m[1]) for d in dels[:40] if [d] != done]
             break                                           # one record per case
@@ -1587,6 +1598,62 @@ def check_stream(ctx, cases, model_by_case, stats):
     stats["stream_jobs"] = len(jobs)
 
 
+LARGE_SCHEMAS = [("int", [0, 7, -1, 1 << 30]), ("long", [1 << 40, 5, -(1 << 62)]), ("string", ["", "a", "x\ny", "\u2028"]),
+                 (["null", "int"], [None, 3, None, -8]), ("double", [1.5, -0.25, 3.0]),
+                 ({"type": "record", "name": "L", "fields": [{"name": "a", "type": "int"}, {"name": "b", "type": ["null", "string"]}]},
+                  [{"a": 1, "b": None}, {"a": 2, "b": "two"}, {"a": -3, "b": ""}])]
+
+
+def check_large(ctx, stats):
+    """corr:json-large: MORE records in one json_writer call than any internal batch (1024, 1025, 2048, 2049, 3000 ...): one document
+    per line, line i = the spec document of record i, and json_reader returns all of them (cheap schemas; the model is evaluated on
+    the few distinct records the long lists cycle through)"""
+    rng = ctx.rng
+    counts = [1024, 1025, 2048, 2049, 3000] if ctx.quick() else [1023, 1024, 1025, 1026, 2047, 2048, 2049, 3000, 4096, 4097, 10001]
+    for raw, base in LARGE_SCHEMAS:
+        c0 = mk_case(raw, base, True, "large-count")
+        ms = [split_model(m) for m in run_model(ctx, [expr_json(c0, r) for r in base], "c15L")]
+        if any(not isinstance(m, tuple) for m in ms):
+            stats["large_model_no_answer"] = stats.get("large_model_no_answer", 0) + 1
+            continue
+        docs = [by_value(m[0]) for m in ms]
+        vals = [model_value(by_value(m[1]))[1] for m in ms]
+        for n in counts:
+            off = rng.randrange(len(base))
+            idx = [(off + i) % len(base) for i in range(n)]
+            recs = [base[i] for i in idx]
+            ctx.count("corr:json-large", (repr(raw), n, off), nontrivial=True)
+            w = impl_json_write(c0.parsed, recs, True)
+            case = dict(schema=c0.raw, records_repr="[%r[(%d + i) %% %d] for i in range(%d)]" % (base, off, len(base), n),
+                        write_union_type=True, tag="large-count", count=n)
+            if w[0] != "ok":
+                ctx.violation("corr:json-large", case, impl="json_writer %s %s" % w, model="%d documents" % n,
+                              signature="C15:json_writer:many-records-in-one-call:%s" % w[1], found_input=True)
+                continue
+            lines = w[1].split("\n")
+            bad = None
+            if len(lines) != n:
+                bad = "%d lines for %d records" % (len(lines), n)
+            else:
+                for i, (ln, k) in enumerate(zip(lines, idx)):
+                    try:
+                        j = json.loads(ln)
+                    except ValueError:
+                        bad = "line %d is not a JSON document: %r" % (i + 1, ln[:60])
+                        break
+                    if show_doc(j) != docs[k] or not spec_json(j, base[k], c0.parsed, c0.named, True):
+                        bad = "line %d is not the spec document of record %d: %r" % (i + 1, i + 1, ln[:60])
+                        break
+            if bad:
+                ctx.violation("corr:json-large", case, impl=bad, model="%d lines, line i = spec document of record i" % n,
+                              signature="C15:json_writer:many-records-in-one-call:text-is-not-one-spec-document-per-line", found_input=True)
+                continue
+            rd = impl_json_read(c0.parsed, w[1])
+            if not (rd[0] == "ok" and len(rd[1]) == n and all(same_by_value(o, vals[k]) for o, k in zip(rd[1], idx))):
+                ctx.violation("corr:json-large", case, impl=("json_reader %s %s" % (rd[0], str(rd[1])[:200])), model="%d records" % n,
+                              signature="C15:json_reader:many-records-in-one-call:records-differ-from-written", found_input=True)
+
+
 def dkind(ft, named):
     r = resolve(ft, named)
     if isinstance(r, list):
@@ -1623,6 +1690,7 @@ def run(ctx):
         tags[c.tag] = tags.get(c.tag, 0) + 1
     check_defaults(ctx, cases, by_case, stats)
     check_stream(ctx, cases, by_case, stats)
+    check_large(ctx, stats)
     ctx.notes["cases_by_family"] = tags
     ctx.notes["records_evaluated_in_model"] = len(exprs)
     tot = max(1, len(cases))
